@@ -218,10 +218,16 @@ func crashMain(args []string) {
 			w.Emit(rec)
 			for pass := 0; pass < 2; pass++ {
 				c := call{Op: "Tick"}
-				r.emit(c, r.step(&c))
+				{
+					res := r.step(&c)
+					r.emit(c, res)
+				}
 				for first := true; first || sc.gcRunning; first = false {
 					c := call{Op: "Gc"}
-					r.emit(c, r.step(&c))
+					{
+						res := r.step(&c)
+						r.emit(c, res)
+					}
 				}
 			}
 			r.emit(call{Op: "Final"}, "final")
